@@ -139,9 +139,22 @@ fn body(space: Space) -> impl Fn(&Ch) -> Run + Sync + Send {
                 }))
           })
           && a["slots"].as_object().unwrap().len() == c["slots"].as_object().unwrap().len();
+        // cause: a JSON file imported without attribute is accepted only where
+        // it is first reached inside a dynamic branch (recorded leniency finding)
+        let json_leniency = *comp == "slots"
+          && a["slots"].as_object().unwrap().len() == c["slots"].as_object().unwrap().len()
+          && a["slots"].as_object().unwrap().iter().all(|(k, va)| {
+            let vc = &c["slots"][k];
+            va == vc
+              || (k.ends_with(".json")
+                && [va, vc].iter().any(|v| v.as_str() == Some("json"))
+                && [va, vc].iter().any(|v| v.as_str().is_some_and(|s| s.starts_with("error:UnsupportedMediaType"))))
+          });
         run.violate(
           if source_phase_asset {
             "pruned-keeps-module-where-code-only-has-source-phase-asset".to_string()
+          } else if json_leniency {
+            "pruned-differs-where-json-without-attribute-is-accepted-only-in-a-dynamic-branch".to_string()
           } else {
             format!("pruned-differs-from-code-only@{comp}:{}", detail.0)
           },
